@@ -554,3 +554,60 @@ def dropClose (tol : Int) : List Int → List Int
 def filterBeforeFit (tol : Int) : Hooks Int := { settings := fun s _ => s, points := dropClose tol }
 
 end KawinV.SurrogateFit
+
+/-!
+## EVERY class with a `save` / `load` pair, every keyword branch of `save`
+
+Besides `GenericModel.save / load` (one branch: `np.savez_compressed(filename, **self.toDict())`) kawin has classes that write
+their arrays directly and take a `compressed` keyword:
+`StrengthModel.save(filename, compressed=True)` (Strength.py 78-94) and `PopulationBalanceModel.saveRecordedPSD(filename,
+compressed=True)` / `loadRecordedPSD` (PopulationBalance.py 163-190):
+
+    if compressed: np.savez_compressed(filename, ssStrength=self.solidStrength, rss=self.rss, ls=self.ls)
+    else:          np.savez(filename, ssStrength=self.solidStrength, rss=self.rss, ls=self.ls)
+
+Each BRANCH is a list of lines  (key in the file, attribute it is written from);  `load` is one list of lines (key, attribute
+it is stored into).  The lines are NOT transcribed by hand: `KawinV.Gen.C20.saveTables` holds one row per (class, branch), read
+off the running code with marker arrays in every array attribute on every run (GrainGrowthModel and Coupler inherit
+GenericModel.save with an empty `toDict`: their rows have no lines).  A row is a `Spec`, so `save` / `load` / `roundtrip` above
+give it its meaning; compression is the identity on the arrays (the npz layer, compared with the files on every run).
+-/
+namespace KawinV.SaveLoad
+
+/-- a row of the generated table: class, branch of `save` ("compressed" | "uncompressed"), the lines of that branch,
+the lines of `load` -/
+abbrev SaveRow := String × String × List Entry × List Entry
+
+def SaveRow.cls (r : SaveRow) : String := r.1
+def SaveRow.branch (r : SaveRow) : String := r.2.1
+def SaveRow.writes (r : SaveRow) : List Entry := r.2.2.1
+def SaveRow.reads (r : SaveRow) : List Entry := r.2.2.2
+
+/-- the row as a pair of tables -/
+def SaveRow.spec (r : SaveRow) : Spec := { writes := r.writes, reads := r.reads }
+
+/-- no string occurs twice -/
+def distinctKeys : List String → Bool
+  | [] => true
+  | k :: r => !r.contains k && distinctKeys r
+
+/-- `load` has a line that stores the entry written by line `w` back into the attribute it was written from -/
+def readBack (R : List Entry) (w : Entry) : Bool := R.any (fun e => e.key == w.key && e.slot == w.slot)
+
+/-- the slot of the line was identified (the extraction writes "?…" when the marker data matched no attribute) -/
+def slotKnown (e : Entry) : Bool := !("?".toList.isPrefixOf e.slot.toList)
+
+/-- **a branch writes field f from field f and `load` puts it back into f**: keys distinct; every line of `load` is
+covered by a line of this branch (same key, same attribute); every line of this branch is read back into the attribute
+it was written from; every attribute identified -/
+def saveRowOk (r : SaveRow) : Bool :=
+  distinctKeys (r.writes.map Entry.key) && r.reads.all (covers r.writes) && r.writes.all (readBack r.reads) &&
+  r.writes.all slotKnown && r.reads.all slotKnown
+
+def findRow (T : List SaveRow) (cls branch : String) : Option SaveRow :=
+  T.find? (fun r => r.cls == cls && r.branch == branch)
+
+/-- the attributes a class saves, by its row -/
+def SaveRow.fields (r : SaveRow) : List String := r.writes.map Entry.slot
+
+end KawinV.SaveLoad
